@@ -412,7 +412,8 @@ def calculate_1d_frequencies(
     # Ensure correct binning
     bins = binning.bins  # bin_utils.make_bin_array(bins)
     if validate_bins:
-        if bins.shape[0] == 0:
+        if bins.shape[0] == 0 and not binning.is_adaptive():
+            # (An adaptive binning may start without bins, e.g. for an empty chunk of data.)
             raise ValueError("Cannot have histogram with 0 bins.")
         if not _bin_utils.is_rising(bins):
             raise ValueError("Bins must be rising.")
